@@ -2854,3 +2854,156 @@ func isLocalValue(info *types.Info, fb *FuncBody, v *types.Var) (bool, string) {
 	}
 	return true, ""
 }
+
+// decodeNoSilentOverwrite (C08): the key-by-key decoders of Tasks and Includes do what yaml's own duplicate-key check would.
+func decodeNoSilentOverwrite(c *Check, a *Anchors) {
+	c.Rule("decode-no-silent-overwrite", "in the UnmarshalYAML of the task table and of the include table (which walk the mapping node key by key, so yaml.v3's duplicate-key check never runs) every Set of a decoded entry is dominated by the not-found edge of a Get of the same key on the same table, and the found edge returns an error: of two tasks or includes with the same name in one file the second must not silently replace the first")
+	n := 0
+	for _, tn := range []string{"Tasks", "Includes"} {
+		fb := c.P.Func(PkgAst, tn, "UnmarshalYAML")
+		if fb == nil {
+			c.Errorf("decode-no-silent-overwrite: %s.UnmarshalYAML not found", tn)
+			continue
+		}
+		c.Fn(fb)
+		info := fb.Info()
+		recv, _ := info.Defs[fb.Decl.Recv.List[0].Names[0]].(*types.Var)
+		f := NewFlow(c.P, fb, func(call *ast.CallExpr, obj types.Object) string {
+			fn, ok := obj.(*types.Func)
+			if !ok || fn.Pkg() == nil || fn.Pkg().Path() != PkgAst {
+				return ""
+			}
+			sel, ok := ast.Unparen(call.Fun).(*ast.SelectorExpr)
+			if !ok || varOf(info, sel.X) != recv {
+				return ""
+			}
+			switch fn.Name() {
+			case "Set":
+				return "set"
+			case "Get":
+				return "get"
+			}
+			return ""
+		})
+		f.NoInline = true
+		f.Run()
+		for call, l := range f.Labels {
+			if l != "set" {
+				continue
+			}
+			n++
+			st := f.At[call]
+			sameKey := false
+			for gc, gl := range f.Labels {
+				if gl == "get" && len(gc.Args) == 1 && len(call.Args) == 2 && exprStr(gc.Args[0]) == exprStr(call.Args[0]) {
+					sameKey = true
+				}
+			}
+			c.Decide(st.Has("false:get") && sameKey, "decode-no-silent-overwrite", "set-after-free-check@"+fnDisplay(fb), call.Pos(), "Set only on the not-found edge of Get(same key)",
+				"a decoded entry is stored without its key having been established free: a second `"+strings.ToLower(strings.TrimSuffix(tn, "s"))+"` with the same name in the same file silently replaces the first one; must-facts: "+st.String())
+		}
+		conflict := false
+		for _, r := range f.Returns {
+			if st := f.At[r]; st.Has("true:get") {
+				if res := errResult(r); res != nil && !isNilLit(info, res) {
+					conflict = true
+				}
+			}
+		}
+		n++
+		c.Decide(conflict, "decode-no-silent-overwrite", "duplicate-error@"+fnDisplay(fb), fb.Decl.Pos(), "the found edge returns an error", "a duplicate key is no longer reported")
+	}
+	c.Floor("decode-no-silent-overwrite", n, 4)
+}
+
+// remoteClassificationAgrees (C08): one classifier decides what is a remote location.
+func remoteClassificationAgrees(c *Check, a *Anchors) {
+	c.Rule("remote-classification-agrees", "sibling agreement: NewNode decides with one classifier function (the scheme detection it switches on) whether an include location is remote; every ResolveEntrypoint that hands its argument on unchanged (treats it as remote instead of joining it onto the including file's directory) takes that decision from the same classifier, not from an ad-hoc string test — a test such as HasPrefix(entrypoint, \"git\") also matches local paths (gitops/Taskfile.yml), which are then looked up relative to the working directory")
+	nn := c.P.Func(PkgTaskfile, "", "NewNode")
+	if nn == nil {
+		c.Errorf("remote-classification-agrees: taskfile.NewNode not found")
+		return
+	}
+	// the classifier: the module function whose result NewNode switches on
+	var classifier *types.Func
+	ninfo := nn.Info()
+	inspectBody(nn.Body, func(nd ast.Node) bool {
+		sw, ok := nd.(*ast.SwitchStmt)
+		if !ok || sw.Tag == nil {
+			return true
+		}
+		if v := varOf(ninfo, sw.Tag); v != nil {
+			for _, d := range defsOf(ninfo, nn.Body, v) {
+				if call, ok := ast.Unparen(d).(*ast.CallExpr); ok {
+					if fn, ok := callee(ninfo, call).(*types.Func); ok && fn.Pkg() != nil && fn.Pkg().Path() == PkgTaskfile {
+						classifier = fn
+					}
+				}
+			}
+		}
+		return true
+	})
+	if classifier == nil {
+		c.Errorf("remote-classification-agrees: NewNode does not switch on the result of a classifier function of package taskfile")
+		return
+	}
+	n := 0
+	for _, fb := range c.P.BodiesIn(PkgTaskfile) {
+		if fb.Decl == nil || fb.Decl.Recv == nil || fb.Decl.Name.Name != "ResolveEntrypoint" || fb.Type.Params == nil || len(fb.Type.Params.List) != 1 || len(fb.Type.Params.List[0].Names) != 1 {
+			continue
+		}
+		info := fb.Info()
+		pv, _ := info.Defs[fb.Type.Params.List[0].Names[0]].(*types.Var)
+		pm := parentMap(fb.Body)
+		for i, r := range returnsOf(fb.Body) {
+			if len(r.Results) != 2 || varOf(info, r.Results[0]) != pv {
+				continue
+			}
+			// the pass-through return: which condition governs it
+			var cond ast.Expr
+			for p := pm[ast.Node(r)]; p != nil; p = pm[p] {
+				if ifs, ok := p.(*ast.IfStmt); ok && within(r, ifs.Body) {
+					cond = ifs.Cond
+					if ifs.Init != nil {
+						// the condition may test a variable defined in the init statement
+						if as, ok := ifs.Init.(*ast.AssignStmt); ok && len(as.Rhs) == 1 {
+							cond = &ast.BinaryExpr{X: as.Rhs[0], Op: token.LAND, Y: ifs.Cond}
+						}
+					}
+					break
+				}
+			}
+			n++
+			c.Fn(fb)
+			uses := false
+			if cond != nil {
+				ast.Inspect(cond, func(m ast.Node) bool {
+					if call, ok := m.(*ast.CallExpr); ok {
+						if fn, ok := callee(info, call).(*types.Func); ok && fn == classifier {
+							uses = true
+						}
+					}
+					if id, ok := m.(*ast.Ident); ok {
+						if v, ok := info.Uses[id].(*types.Var); ok {
+							for _, d := range defsOf(info, fb.Body, v) {
+								if call, ok := ast.Unparen(d).(*ast.CallExpr); ok {
+									if fn, ok := callee(info, call).(*types.Func); ok && fn == classifier {
+										uses = true
+									}
+								}
+							}
+						}
+					}
+					return true
+				})
+			}
+			what := "unconditionally"
+			if cond != nil {
+				what = "when `" + exprStr(cond) + "`"
+			}
+			c.Decide(uses, "remote-classification-agrees", fmt.Sprintf("%s.ResolveEntrypoint pass-through#%d", recvOf(fb), i+1), r.Pos(), "decided by "+classifier.Name()+", like NewNode",
+				fmt.Sprintf("(*%s).ResolveEntrypoint returns its argument unchanged %s — a decision not taken by %s, the classifier NewNode uses: a location that NewNode treats as a local file is not resolved against the including Taskfile's directory", recvOf(fb), what, classifier.Name()))
+		}
+	}
+	c.Floor("remote-classification-agrees", n, 1)
+}
